@@ -389,12 +389,15 @@ Section Univ.
   Notation delete_loop := (delete_loop N mf succs subj).
   Notation st_delete := (st_delete N mf succs subj).
   Notation gc_pass1 := (gc_pass1 N mf succs).
-  Notation gc_pass2 := (gc_pass2 N mf succs subj sk).
-  Notation st_gc := (st_gc N mf succs subj sk true true).
+  Notation gc_round := (gc_round N mf succs subj sk).
+  Notation gc_rounds := (gc_rounds N mf succs subj sk).
+  Notation st_gc := (st_gc N mf succs subj sk true true true).
   Notation reopen := (reopen N mf succs).
-  Notation step := (step N mf succs subj sk true true).
-  Notation run := (run N mf succs subj sk true true).
+  Notation step := (step N mf succs subj sk true true true).
+  Notation run := (run N mf succs subj sk true true true).
   Notation obs_equiv := (obs_equiv N succs dflt).
+  Notation wf_op := (wf_op mf).
+  Notation wf_history := (wf_history mf).
 
   Lemma fold_visit_mono f p (IH : forall c g x, In x g -> In x (visit f p c g)) :
     forall l g x, In x g -> In x (fold_left (fun acc c => visit f p c acc) l g).
@@ -757,14 +760,15 @@ Section Univ.
       + apply mem_false in M. split; [now apply I2|]. intro X; congruence.
   Qed.
 
-  Lemma delete_loop_good cfg o fuel : forall ds q s, Good cfg s -> Good cfg (fst (delete_loop fuel cfg o ds q s)).
+  Lemma delete_loop_good cfg o fuel : forall ds qq s, Good cfg s -> Good cfg (fst (delete_loop fuel cfg o ds qq s)).
   Proof.
-    induction fuel as [|f IH]; intros ds q s G; simpl; auto.
-    destruct q as [|h q]; simpl; auto.
+    induction fuel as [|f IH]; intros ds qq s G; simpl; auto.
+    destruct (fst qq) as [|h q]; simpl; auto.
     pose proof (delete1_good cfg o h s G) as G1.
     destruct (delete1 cfg o h s) as [[s' dang] okb]. simpl in G1.
     destruct okb; simpl; auto.
   Qed.
+
   (* ----- GC ----- *)
   Section GC.
     Variables (bl : list nat) (ix : rmap) (g0 : list nat).
@@ -823,19 +827,29 @@ Section Univ.
       - apply index_all_root. intro. eapply entry_present; eauto.
     Qed.
 
-    Lemma pass2_inv l : forall a a' b, (forall kv, In kv l -> In kv ix) -> GcInv a ->
-      gc_pass2 bl l a = Some (a', b) -> GcInv a'.
+    Lemma round_inv l : forall a b, (forall kv, In kv l -> In kv ix) -> GcInv a ->
+      GcInv (fst (fold_left (fun ac kv =>
+        let a := fst ac in let r := fst kv in let d := snd kv in
+        if negb (is_digest_ref r d) || mem (d_node d) (g_tagged a) then ac
+        else if chain_hits subj sk (S N) bl (g_gr a) (d_node d)
+             then (mkGc (res_tag (strip d) (RDig (d_node d)) (g_res a))
+                        (index_all bl (d_node d) (g_gr a)) (d_node d :: g_tagged a), true)
+             else ac) l (a, b))).
     Proof.
-      induction l as [|[r d] l IH]; intros a a' b Hl Ga E; simpl in E.
-      - now injection E as <- _.
-      - assert (Hl' : forall kv, In kv l -> In kv ix) by (intros kv I; apply Hl; now right).
-        destruct (negb (is_digest_ref r d) || mem (d_node d) (g_tagged a)) eqn:C; [eauto|].
-        destruct (sk (d_node d) && negb (mem (d_node d) bl)); [now injection E as <- _|].
-        destruct (subj (d_node d)) as [sb|]; [|eauto].
-        destruct (mem sb (g_gr a)); [|discriminate].
-        eapply IH; [exact Hl'| |exact E].
-        destruct a as [rs g tg]. simpl. apply (gcinv_dig rs g tg tg); auto.
-        eapply entry_present. apply Hl. now left.
+      induction l as [|[r d] l IH]; intros a b Hl Ga; cbn [fold_left fst snd]; auto.
+      assert (Hl' : forall kv, In kv l -> In kv ix) by (intros kv I; apply Hl; now right).
+      destruct (negb (is_digest_ref r d) || mem (d_node d) (g_tagged a)); [now apply IH|].
+      destruct (chain_hits subj sk (S N) bl (g_gr a) (d_node d)); [|now apply IH].
+      apply IH; auto. destruct a as [rs g tg]. cbn [g_res g_gr g_tagged].
+      apply (gcinv_dig rs g tg); auto. eapply entry_present. apply Hl. now left.
+    Qed.
+
+    Lemma rounds_inv fuel : forall os a, GcInv a -> GcInv (gc_rounds fuel bl ix os a).
+    Proof.
+      induction fuel as [|f IH]; intros os a Ga; simpl; auto.
+      assert (G1 : GcInv (fst (gc_round bl (shuffle (hd [] os) ix) a))).
+      { apply round_inv; auto. intros kv I. now apply In_shuffle in I. }
+      destruct (snd (gc_round bl (shuffle (hd [] os) ix) a)); auto.
     Qed.
 
     Definition p3step (a : gcacc) (kv : ref * desc) : gcacc :=
@@ -905,7 +919,7 @@ Section Univ.
   Proof.
     intros G. unfold OciIndex.st_gc.
     set (a1 := gc_pass1 (blobs s) (shuffle (o_gc1 o) (r_index (res s))) (mkGc res_empty [] [])).
-    destruct (gc_pass2 (blobs s) (shuffle (o_gc2 o) (r_index (res s))) a1) as [[a2 [|]]|] eqn:P2; auto.
+    unfold gc_pass2. set (a2 := gc_rounds (S (length (r_index (res s)))) (blobs s) (r_index (res s)) (o_gc2 o) a1).
     destruct G as [H S]. pose proof H as H0. unfold Inv, idx in H0.
     assert (G0 : GcInv (blobs s) (mkGc res_empty [] [])).
     { split; simpl.
@@ -915,7 +929,7 @@ Section Univ.
     assert (G1 : GcInv (blobs s) a1).
     { apply (pass1_inv _ _ _ H0); auto. intros kv I. now apply In_shuffle in I. }
     assert (G2 : GcInv (blobs s) a2).
-    { eapply (pass2_inv _ _ _ H0); [|exact G1|exact P2]. intros kv I. now apply In_shuffle in I. }
+    { apply (rounds_inv _ _ _ H0); auto. }
     rewrite pass3_eq.
     destruct (pass3_inv _ _ _ H0 (r_index (res s)) a2 (fun kv I => I) G2) as (G3 & Eg & Mono).
     set (a3 := fold_left p3step (r_index (res s)) a2) in *.
@@ -977,6 +991,14 @@ Section Univ.
     - destruct G as [H S]. split; [exact H|]. intros _. unfold Synced, idx. simpl. apply save_diskok. apply H.
     - destruct R as [A|R]; [|congruence]. destruct G as [H S].
       destruct (reopen_good s H (S A)) as [H' S']. split; auto.
+    - destruct (mem k (blobs s)); [exact G|]. simpl.
+      apply (good_same cfg s); [exact G| |reflexivity|reflexivity].
+      destruct G as [H _]. unfold Inv, idx in *. simpl. split.
+      + apply H.
+      + intros r d L. right. eapply inv_i4; eauto.
+      + intros k' Mk [<-|I]; [congruence|]. eapply inv_k; eauto.
+      + intros k' Mk I. right. eapply inv_g2a; eauto.
+      + intros k' Mk [<-|I]; [congruence|]. eapply inv_g2b; eauto.
   Qed.
 
   Lemma run_good cfg h : forall s,
@@ -1012,6 +1034,9 @@ Section Univ.
     assert (Eb : blobs (reopen s) = blobs s) by reflexivity.
     split.
     - unfold obs_tags. apply filter_ext. intro t. rewrite Ei, (reload_tag _ _ S).
+      destruct (lookup (RTag t) (r_index (res s))); reflexivity.
+    - intro f. unfold obs_tags_from. f_equal.
+      unfold obs_tags. apply filter_ext. intro t. rewrite Ei, (reload_tag _ _ S).
       destruct (lookup (RTag t) (r_index (res s))); reflexivity.
     - intro t. unfold obs_resolve_tag. rewrite Ei, (reload_tag _ _ S).
       destruct (lookup (RTag t) (r_index (res s))) as [d|]; simpl; auto.
@@ -1139,8 +1164,8 @@ Definition ex_plain_hist (l : list op) : list (op * orders) := map (fun o => (o,
 Lemma refuted_gc_not_saved :
   exists (N : nat) (mf : nat -> bool) (succs : nat -> list nat) (subj : nat -> option nat)
          (sk dflt : nat -> bool) (cfg : config) (h : list (op * orders)),
-    autosave cfg = true /\ wf_history h /\
-    let s := run N mf succs subj sk false true cfg h store_empty in
+    autosave cfg = true /\ wf_history mf h /\
+    let s := run N mf succs subj sk false true true cfg h store_empty in
     obs_resolve_dig dflt (reopen N mf succs s) 0 <> obs_resolve_dig dflt s 0 /\ disk_valid s = false.
 Proof.
   exists 1, (fun _ => true), (fun _ => []), (fun _ => None), (fun _ => false), (fun _ => false),
@@ -1156,8 +1181,8 @@ Definition ex_succs (k : nat) := match k with 1 => [0] | 2 => [1] | _ => [] end.
 Lemma refuted_gc_drops_digest_ref :
   exists (N : nat) (mf : nat -> bool) (succs : nat -> list nat) (subj : nat -> option nat)
          (sk dflt : nat -> bool) (cfg : config) (h : list (op * orders)),
-    autosave cfg = true /\ wf_history h /\ (forall k, mf k = false -> succs k = []) /\
-    let s := run N mf succs subj sk true false cfg h store_empty in
+    autosave cfg = true /\ wf_history mf h /\ (forall k, mf k = false -> succs k = []) /\
+    let s := run N mf succs subj sk true false true cfg h store_empty in
     obs_preds N succs (reopen N mf succs s) 0 <> obs_preds N succs s 0.
 Proof.
   exists 3, ex_mf, ex_succs, (fun _ => None), (fun _ => true), (fun _ => false),
@@ -1174,11 +1199,11 @@ Definition ex_hist : list (op * orders) :=
     (OTag (mkDesc 2 1 (Some (RTag 5))) (RTag 0), mkOrd [1;0] [2] [] [] []);
     (OTag (plain 1) (RTag 1), ord0); (OTag (mkDesc 1 2 None) (RTag 0), ord0);
     (OTag (plain 0) (RDig 0), ord0);
-    (OUntag (RTag 1), mkOrd [3;1] [0;2] [] [] []); (OGC, mkOrd [] [1] [2;1] [1;1;0] []);
+    (OUntag (RTag 1), mkOrd [3;1] [0;2] [] [] []); (OGC, mkOrd [] [1] [2;1] [[1;1;0]; [2]] []);
     (ODelete 2, mkOrd [1] [] [] [] [([1], [2;0])]); (OReopen, ord0); (OPush 2, ord0) ].
 Lemma example_history :
-  wf_history ex_hist /\ (forall k, ex_mf k = false -> ex_succs k = []) /\
-  let s := run 3 ex_mf ex_succs (fun _ => None) (fun _ => true) true true ex_cfg ex_hist store_empty in
+  wf_history ex_mf ex_hist /\ (forall k, ex_mf k = false -> ex_succs k = []) /\
+  let s := run 3 ex_mf ex_succs (fun _ => None) (fun _ => true) true true true ex_cfg ex_hist store_empty in
   obs_tags 3 s = [0] /\ obs_resolve_tag s 0 = Some (mkDesc 1 2 (Some (RTag 0))) /\
   obs_preds 3 ex_succs s 1 = [2] /\ obs_preds 3 ex_succs s 0 = [1] /\
   obs_preds 3 ex_succs (reopen 3 ex_mf ex_succs s) 0 = [1] /\ disk_valid s = true.
@@ -1188,7 +1213,7 @@ Proof.
   - vm_compute. repeat split.
 Qed.
 Lemma example_repaired :
-  let s := run 3 ex_mf ex_succs (fun _ => None) (fun _ => true) true true ex_cfg
+  let s := run 3 ex_mf ex_succs (fun _ => None) (fun _ => true) true true true ex_cfg
              (ex_plain_hist [OPush 1; OPush 2; OTag (plain 2) (RTag 0); OGC; ODelete 2]) store_empty in
   obs_preds 3 ex_succs (reopen 3 ex_mf ex_succs s) 0 = [1] /\ obs_preds 3 ex_succs s 0 = [1].
 Proof. vm_compute. split; reflexivity. Qed.
@@ -1196,8 +1221,8 @@ Proof. vm_compute. split; reflexivity. Qed.
 (* a tag name that is the digest string of another node breaks J2 and the
    equivalence: why [wf_history] is needed *)
 Lemma inconsistent_reference_example :
-  exists h, ~ wf_history h /\
-    let s := run 2 (fun _ => true) (fun _ => []) (fun _ => None) (fun _ => true) true true ex_cfg h store_empty in
+  exists h, ~ wf_history (fun _ => true) h /\
+    let s := run 2 (fun _ => true) (fun _ => []) (fun _ => None) (fun _ => true) true true true ex_cfg h store_empty in
     obs_resolve_dig (fun _ => false) (reopen 2 (fun _ => true) (fun _ => []) s) 1 <> obs_resolve_dig (fun _ => false) s 1.
 Proof.
   exists (ex_plain_hist [OPush 0; OTag (plain 0) (RDig 1)]).
@@ -1206,3 +1231,15 @@ Proof.
     simpl in W3. discriminate.
   - vm_compute. discriminate.
 Qed.
+
+(* F1 (C09): with the referrer pass as found, GC never returns for an untagged manifest
+   whose subject is not in the rebuilt graph; the repaired pass returns and collects it *)
+Lemma prefix_gc_hangs :
+  let mf := fun k => Nat.eqb k 1 in
+  let succs := fun k : nat => if Nat.eqb k 1 then [0] else [] in
+  let subj := fun k : nat => if Nat.eqb k 1 then Some 0 else None in
+  let s1 := run 2 mf succs subj mf true true false ex_cfg (ex_plain_hist [OPush 1]) store_empty in
+  snd (step 2 mf succs subj mf true true false ex_cfg s1 (OGC, ord0)) = RHang /\
+  let r := step 2 mf succs subj mf true true true ex_cfg s1 (OGC, ord0) in
+  snd r = ROk /\ obs_exists (fst r) 1 = false.
+Proof. vm_compute. repeat split. Qed.
